@@ -305,6 +305,16 @@ func mustMkDir(dir string) string {
 	return dir
 }
 
+// mustMkEmptyDir is for the intermediate output: everything found in it is
+// optimized and written to the final output, so leftovers of a killed run
+// (or of a run in test mode, which keeps the dir) must not survive
+func mustMkEmptyDir(dir string) string {
+	dir, err := filepath.Abs(dir)
+	panicIf(err)
+	panicIf(os.RemoveAll(dir))
+	return mustMkDir(dir)
+}
+
 func panicIf(err error) {
 	if err != nil {
 		panic(err)
